@@ -8,6 +8,7 @@ import (
 	"context"
 	"encoding/json"
 	"fmt"
+	"reflect"
 	"strings"
 
 	"ebuverif/internal/h"
@@ -190,6 +191,62 @@ func extraCells() []shape {
 	}}}
 }
 
+// Two distinct Go types that print the same (reflect.Type.String() only has the short
+// package name and the type name) but carry different event names: function-local types
+// declared in two functions.
+type namerV1 struct{}
+
+func (namerV1) EventTypeName() string { return "created.v1" }
+
+type namerV2 struct{}
+
+func (namerV2) EventTypeName() string { return "created.v2" }
+
+func sameStringPair() (a, b any) {
+	a = func() any {
+		type Created struct {
+			namerV1
+			N int
+		}
+		return Created{N: 1}
+	}()
+	b = func() any {
+		type Created struct {
+			namerV2
+			N int
+		}
+		return Created{N: 2}
+	}()
+	return
+}
+
+func sameStringCells() []shape {
+	return []shape{{name: "two distinct types with the same reflect name and different event names on one bus", run: func(route string) (out []string) {
+		if route != "stored-type" && route != "replay-eventtype" {
+			return nil
+		}
+		a, b := sameStringPair()
+		if reflect.TypeOf(a) == reflect.TypeOf(b) || reflect.TypeOf(a).String() != reflect.TypeOf(b).String() {
+			return nil // the premise does not hold with this compiler: nothing to check
+		}
+		for _, order := range [][]any{{a, b}, {b, a}, {a, b, a}} {
+			ms := eventbus.NewMemoryStore()
+			bus := eventbus.New(eventbus.WithStore(ms))
+			var want []string
+			for _, ev := range order {
+				eventbus.Publish(bus, ev)
+				want = append(want, eventbus.EventType(ev))
+			}
+			got := storedTypes(ms)
+			if fmt.Sprint(got) != fmt.Sprint(want) {
+				out = append(out, fmt.Sprintf("stored types %v, EventType reports %v for the published events", got, want))
+				break
+			}
+		}
+		return out
+	}}}
+}
+
 type cell struct {
 	Shape string `json:"shape"`
 	Route string `json:"route"`
@@ -197,7 +254,7 @@ type cell struct {
 
 func cells() []cell {
 	var l []cell
-	for _, s := range append(shapes(), extraCells()...) {
+	for _, s := range allShapes() {
 		for _, r := range routes {
 			l = append(l, cell{s.name, r})
 		}
@@ -205,8 +262,12 @@ func cells() []cell {
 	return l
 }
 
+func allShapes() []shape {
+	return append(append(shapes(), extraCells()...), sameStringCells()...)
+}
+
 func runCell(cl cell) []string {
-	for _, s := range append(shapes(), extraCells()...) {
+	for _, s := range allShapes() {
 		if s.name == cl.Shape {
 			var out []string
 			func() {
@@ -268,7 +329,7 @@ func replay(c *h.Check, rf *h.ReplayFile) []vrt.Violation {
 
 func main() {
 	h.Main("C15", "exploration", []string{
-		"the space is finite and enumerated completely: 11 type shapes x 6 routes",
+		"the space is finite and enumerated completely: 12 type shapes x 6 routes",
 	}, run, replay, func(string) map[string]any {
 		return map[string]any{"rule": "complete cross product of event type shapes (plain / pointer / custom name on value receiver by value and by pointer / custom name on pointer receiver / state messages by value and pointer) and name-deriving APIs (persisted type, Replay+EventType, SubscribeWithReplay replay and live phase, RegisterUpcast source and target); every cell is distinct and non-trivial"}
 	})
